@@ -165,6 +165,12 @@ def doFst (c : Cfg) (op : String) (key : Path) : String :=
       | .file => fin s!"acc data {toHex dst}"
       | .absent => fin "acc notfound"
       | _ => fin "acc oserr"
+  | "gmt" => match buildFilePath c.root key true with   -- GetMeta = Get, the record's metadata returned
+    | .error e => rej e
+    | .ok dst => match k dst with
+      | .file => fin "acc meta"
+      | .absent => fin "acc notfound"
+      | _ => fin "acc oserr"
   | "del" => match buildFilePath c.root key true with
     | .error e => rej e
     | .ok dst => match k dst with
@@ -308,7 +314,7 @@ def step (st : Option Cfg) (line : String) : Option Cfg × String :=
     | some rr, some cw =>
       if ¬ validRel rr ∨ (cw ≠ [] ∧ ¬ validRel cw) then (st, "bad-op")
       else if ¬ (comp = "fst" ∨ comp = "ds" ∨ comp = "dsh" ∨ comp = "upd" ∨ comp = "lib") then (st, "bad-op")
-      else if ¬ (variant = "plain" ∨ variant = "slash" ∨ variant = "noexist") then (st, "bad-op")
+      else if ¬ (variant = "plain" ∨ variant = "slash" ∨ variant = "noexist" ∨ (variant = "nested" ∧ comp = "upd")) then (st, "bad-op")
       else
         let root := sbx ++ 47 :: rr
         let given := if variant = "slash" then root ++ [47] else root
